@@ -354,7 +354,7 @@ package core
 //@   assert at call Error.Bytes :: f.Peer.RspBody == nil || f.RspBody.base != f.Peer.RspBody.base
 //@   ensures[wf] fwf(c.inFragQueue)
 //@   ensures[head@C03] (err == nil || err == codec.MovedOrAsk) ==> f == old(hd(c)) && f != nil
-//@   ensures[redirect@C13] err == codec.MovedOrAsk ==> redirect(f) && f.Owner != nil && f.Peer != nil && f.Done == old(hd(c).Done)
+//@   ensures[redirect@C13,C07] err == codec.MovedOrAsk ==> redirect(f) && f.Owner != nil && f.Peer != nil && f.Done == old(hd(c).Done)
 //@       && f.Peer.FragDoneNumber == old(hd(c).Peer.FragDoneNumber) && f.Peer.Done == old(hd(c).Peer.Done) && f.Peer.RspBody == old(hd(c).Peer.RspBody) && f.Peer.DelNum == old(hd(c).Peer.DelNum)
 //@   ensures[late@C16] (err == codec.Continue && f == nil) ==> old(hd(c)) != nil && old(hd(c).Done)
 //@       && old(hd(c)).Peer.Done == old(hd(c).Peer.Done) && old(hd(c)).Peer.RspBody == old(hd(c).Peer.RspBody) && old(hd(c)).Peer.FragDoneNumber == old(hd(c).Peer.FragDoneNumber)
